@@ -101,3 +101,17 @@ Print Assumptions C01_kept_series_instance.
     [main_alg] up to total order 2, on which the two conclusions are confirmed by computation. *)
 Example C01_hypotheses_satisfiable : main_wit_check = true /\ main_wit_kept = true /\ main_wit_elim = true.
 Proof. exact main_witness. Qed.
+
+(** Soundness of the correspondence check k_semeq (Alg/SemExecSound.v): when the executable
+    reading accepts the implementation's tables, their denotations satisfy every equation of
+    the semantics of the program in the concrete [BlockAlg] of Series/Inst.v, up to total
+    order N ([sem_holds_upto] is that conjunction, see its definition). *)
+From PV.Alg Require Import SemExec SemExecSound.
+From PV.Series Require Import Exec.
+From PV.Block Require Import QLemmas QInst.
+Theorem C01_tie_sound :
+  forall (D k N : nat) (bl : list nat) (msk : list (list bool)) (cb : list bool) (El : list gq) (tb : bool)
+         (sols : list (string * tser gq)) (alg : algorithm),
+    check_alg D k N bl msk cb El tb sols alg = true -> sem_holds_upto D k N bl msk cb El tb sols alg.
+Proof. exact check_alg_sound. Qed.
+Print Assumptions C01_tie_sound.
